@@ -83,7 +83,36 @@ theorem single_drawer_ids (m n : Nat) : idsOf m (List.replicate n m) = (List.ran
     · omega
     · apply List.map_congr_left; intro a _; simp; omega
 
-/-- Two modules drawing from one counter: which ids a module gets depends on the schedule. -/
+/-- Two modules drawing from one counter: which ids a module gets depends on the schedule (the behaviour of function-literal
+    names before the repair of F39, still the behaviour of the struct / interface / enum literal counters). -/
 theorem two_drawers_witness : idsOf 0 [0, 1] = [1] ∧ idsOf 0 [1, 0] = [2] := by decide
+
+theorem assignPerFile_ids (m : Nat) : ∀ (s : Sched) (seen : List (Nat × Nat)),
+    ((assignPerFile seen s).filter (·.1 == m)).map (·.2) =
+      (List.range (s.filter (· == m)).length).map (· + (seen.filter (·.1 == m)).length + 1)
+  | [], seen => by simp [assignPerFile]
+  | x :: rest, seen => by
+    simp only [assignPerFile]
+    by_cases hx : x = m
+    · subst hx
+      have ih := assignPerFile_ids x rest ((x, (seen.filter (·.1 == x)).length + 1) :: seen)
+      simp only [List.filter_cons, beq_self_eq_true, if_true, List.map_cons, List.length_cons] at ih ⊢
+      rw [ih, List.range_succ_eq_map]
+      simp only [List.map_cons, List.map_map, Nat.zero_add]
+      congr 1
+      apply List.map_congr_left; intro a _; simp; omega
+    · have hx' : (x == m) = false := by simpa using hx
+      have ih := assignPerFile_ids m rest ((x, (seen.filter (·.1 == x)).length + 1) :: seen)
+      simp only [List.filter_cons, hx', Bool.false_eq_true, if_false] at ih ⊢
+      exact ih
+
+/-- With one counter per source file, the ids a module's function literals receive are 1, 2, 3, … in its own program order,
+    under EVERY schedule of the concurrently running parsers. -/
+theorem func_lit_ids_schedule_independent (m : Nat) (s : Sched) :
+    idsOfPerFile m s = (List.range (s.filter (· == m)).length).map (· + 1) := by
+  have := assignPerFile_ids m s []
+  simpa [idsOfPerFile] using this
+
+example : idsOfPerFile 0 [0, 1, 0] = [1, 2] ∧ idsOfPerFile 0 [1, 0, 0] = [1, 2] := by decide
 
 end FerretVerif.C14
